@@ -105,8 +105,14 @@ impl From<Evaluated<'_>> for Value {
 }
 
 pub fn to_number_value(number: f64) -> Result<Value, Error> {
-    if number.fract() == 0.0 {
+    // 2^63 and 2^64: an integral double below these fits an i64 / a u64
+    // exactly; a larger one must stay a float rather than be clamped.
+    const I64_LIMIT: f64 = 9223372036854775808.0;
+    const U64_LIMIT: f64 = 18446744073709551616.0;
+    if number.fract() == 0.0 && number >= -I64_LIMIT && number < I64_LIMIT {
         Ok(Value::Number(Number::from(number as i64)))
+    } else if number.fract() == 0.0 && number >= I64_LIMIT && number < U64_LIMIT {
+        Ok(Value::Number(Number::from(number as u64)))
     } else {
         Number::from_f64(number)
             .ok_or_else(|| {
